@@ -107,7 +107,7 @@ Definition float_intlike (b : Z) : bool :=
     else sig mod 2^(1075 - e) =? 0.
 
 (* strconv.ParseFloat on an integer-looking text: the nearest float64, ties to even, ±Inf beyond the range
-   (json.Number.Float64; jsontodata.go:104 ignores the range error) *)
+   (json.Number.Float64; jsontodata.go:105 ignores the range error) *)
 Definition float_of_Z_bits (z : Z) : Z :=
   if z =? 0 then 0
   else
@@ -219,7 +219,7 @@ Definition pref_key : str := [95; 95; 112; 114; 101; 102]%N.
 (* ---------------------------------------------------------------------------------------------- *)
 (* the writer: serialization/jsonstreamer.go *)
 
-(* jsontodata.go:11-15 *)
+(* jsontodata.go:13-17 *)
 Inductive jstate := FirstInArray | FirstInObject | AfterElement | AfterValue | AfterKey.
 
 (* jsonstreamer.go:103 write: the type switch (StringValue, Float, Integer, Boolean, default) *)
@@ -248,15 +248,15 @@ Definition write_pinned (float_int_text : Z -> Z) (s : scalar) : res (list jtoke
   | _ => write s
   end.
 
-(* jsonstreamer.go:82 delimit(doer).  `body` is the doer's effect: the bytes it writes and the value of
-   j.state when it returns (AddArray/AddHash overwrite j.state inside the doer, :38 and :48). *)
+(* jsonstreamer.go:79 delimit(doer).  `body` is the doer's effect: the bytes it writes and the value of
+   j.state when it returns (AddArray/AddHash overwrite j.state inside the doer, :39 and :49). *)
 Definition delimit (st : jstate) (body : res (list jtoken * jstate)) : res (list jtoken * jstate) :=
   match st with
-  | FirstInArray => let* (o, _) := body in Ok (o, AfterElement)              (* :84 *)
-  | FirstInObject => let* (o, _) := body in Ok (o, AfterKey)                 (* :87 *)
-  | AfterKey => let* (o, _) := body in Ok (Colon :: o, AfterValue)           (* :90 *)
-  | AfterValue => let* (o, _) := body in Ok (Comma :: o, AfterKey)           (* :94 *)
-  | AfterElement => let* (o, _) := body in Ok (Comma :: o, AfterElement)     (* :98 default; :102 j.state = afterElement *)
+  | FirstInArray => let* (o, _) := body in Ok (o, AfterElement)              (* :81 *)
+  | FirstInObject => let* (o, _) := body in Ok (o, AfterKey)                 (* :84 *)
+  | AfterKey => let* (o, _) := body in Ok (Colon :: o, AfterValue)           (* :87 *)
+  | AfterValue => let* (o, _) := body in Ok (Comma :: o, AfterKey)           (* :91 *)
+  | AfterElement => let* (o, _) := body in Ok (Comma :: o, AfterElement)     (* :95 default; :99 j.state = afterElement *)
   end.
 
 (* the pinned tree (before 1ed663c): the default arm left j.state as the doer left it *)
@@ -284,16 +284,16 @@ Section Stream.
   Variable dl : jstate -> res (list jtoken * jstate) -> res (list jtoken * jstate).
   Variable wr : scalar -> res (list jtoken).
 
-  (* one consumer call in state st: Add :57, AddRef :63, AddArray :36, AddHash :46 *)
+  (* one consumer call in state st: Add :55, AddRef :61, AddArray :37, AddHash :46 *)
   Fixpoint stream_gen (st : jstate) (e : ev) {struct e} : res (list jtoken * jstate) :=
     dl st
       match e with
       | EAdd s => let* o := wr s in Ok (o, st)
       | ERef n => Ok (ref_tokens n, st)
-      | EArr l =>                                      (* :38 j.state = firstInArray; '['; doer(); ']' *)
+      | EArr l =>                                      (* :39 j.state = firstInArray; '['; doer(); ']' *)
           let* (o, st') := seq_gen stream_gen FirstInArray l in
           Ok (LBrack :: o ++ [RBrack], st')
-      | EHash l =>                                     (* :47 '{'; j.state = firstInObject; doer(); '}' *)
+      | EHash l =>                                     (* :48 '{'; j.state = firstInObject; doer(); '}' *)
           let* (o, st') := seq_gen stream_gen FirstInObject l in
           Ok (LBrace :: o ++ [RBrace], st')
       end.
@@ -412,60 +412,60 @@ Definition add_value (t : jtoken) : list ev :=
 Definition is_pref (t : jtoken) : bool :=
   match t with TStr s => str_eqb s pref_key | _ => false end.
 
-(* jsontodata.go:35 jsonValues: the loop is the tail call; returns the calls made on the consumer and the
+(* jsontodata.go:32 jsonValues: the loop is the tail call; returns the calls made on the consumer and the
    unread rest of the text *)
 Fixpoint jv (fuel : nat) (toks : list jtoken) {struct fuel} : res (list ev * list jtoken) :=
   match fuel with
   | O => OutOfFuel
   | S fuel' =>
-    match next_token toks with                                               (* :37 d.Token() *)
-    | None => Ok ([], [])                                                   (* :38 io.EOF *)
+    match next_token toks with                                               (* :34 d.Token() *)
+    | None => Ok ([], [])                                                   (* :35 io.EOF *)
     | Some (t, rest) =>
       match t with
-      | TBad => Err                                                          (* :42 syntax error *)
-      | RBrack | RBrace => Ok ([], rest)                                    (* :46 *)
-      | LBrace =>                                                            (* :49 *)
-        if more rest then                                                    (* :51 *)
-          match next_token rest with                                         (* :52 *)
+      | TBad => Err                                                          (* :38 syntax error *)
+      | RBrack | RBrace => Ok ([], rest)                                    (* :43 *)
+      | LBrace =>                                                            (* :46 *)
+        if more rest then                                                    (* :48 *)
+          match next_token rest with                                         (* :49 *)
           | None => Err
           | Some (k, rest1) =>
-            if is_pref k && more rest1 then                                  (* :56 *)
-              match next_token rest1 with                                    (* :57 *)
+            if is_pref k && more rest1 then                                  (* :53 *)
+              match next_token rest1 with                                    (* :54 *)
               | None => Err
               | Some (TNum n, rest2) =>
-                match num_int64 n with                                       (* :62 *)
-                | None => Err                                                (* :64 *)
+                match num_int64 n with                                       (* :59 *)
+                | None => Err                                                (* :60 *)
                 | Some z =>
-                  match next_token rest2 with                                (* :67 consume end delimiter *)
-                  | Some (RBrace, rest3) =>                                  (* :71 *)
+                  match next_token rest2 with                                (* :64 consume end delimiter *)
+                  | Some (RBrace, rest3) =>                                  (* :68 *)
                       let* (tl, r) := jv fuel' rest3 in
-                      Ok (ERef z :: tl, r)                                   (* :72 c.AddRef(int(n)); :76 continue *)
-                  | _ => Err                                                 (* :74 invalid token *)
+                      Ok (ERef z :: tl, r)                                   (* :69 c.AddRef(int(n)); :73 continue *)
+                  | _ => Err                                                 (* :71 invalid token *)
                   end
                 end
-              | Some (_, _) => Fault                                         (* :62 t.(json.Number) on another token *)
+              | Some (_, _) => Fault                                         (* :59 t.(json.Number) on another token *)
               end
             else
-              let* (inner, rest2) := jv fuel' rest1 in                       (* :78 AddHash(8, {addValue(c,t); jsonValues(c,d)}) *)
+              let* (inner, rest2) := jv fuel' rest1 in                       (* :75 AddHash(8, {addValue(c,t); jsonValues(c,d)}) *)
               let* (tl, r) := jv fuel' rest2 in
               Ok (EHash (add_value k ++ inner) :: tl, r)
           end
         else
-          let* (inner, rest1) := jv fuel' rest in                            (* :83 AddHash(8, {jsonValues(c,d)}) *)
+          let* (inner, rest1) := jv fuel' rest in                            (* :80 AddHash(8, {jsonValues(c,d)}) *)
           let* (tl, r) := jv fuel' rest1 in
           Ok (EHash inner :: tl, r)
       | LBrack =>
-          let* (inner, rest1) := jv fuel' rest in                            (* :88 AddArray(8, {jsonValues(c,d)}) *)
+          let* (inner, rest1) := jv fuel' rest in                            (* :85 AddArray(8, {jsonValues(c,d)}) *)
           let* (tl, r) := jv fuel' rest1 in
           Ok (EArr inner :: tl, r)
       | _ =>
-          let* (tl, r) := jv fuel' rest in                                   (* :93 addValue(c, t) *)
+          let* (tl, r) := jv fuel' rest in                                   (* :90 addValue(c, t) *)
           Ok (add_value t ++ tl, r)
       end
     end
   end.
 
-(* jsontodata.go:19 JsonToData: every panic below, runtime faults included, is recovered and re-raised as
+(* jsontodata.go:21 JsonToData: every panic below, runtime faults included, is recovered and re-raised as
    px.Error(InvalidJson) *)
 Definition read (toks : list jtoken) : res (list ev) :=
   match jv (S (length toks)) toks with
